@@ -14,7 +14,11 @@ extern "C" const GlyphFace *vh_stub_read_glyph(const void *self, unsigned short 
 const GlyphFace *vh_stub_read_glyph(const void *, unsigned short gid, GlyphFace *glyph, int *numsubs) {
   if (gid >= NG || !vh_ok[gid]) return 0;
   glyph->m_advance = Position(vh_adv[gid], 0.f);
+#ifdef VH_LAZY_BOXES
+  *numsubs += (int)(nondet_u8() & 3);      // this glyph's own sub-box count: 0..3
+#else
   *numsubs = 0;
+#endif
   return glyph;
 }
 
@@ -42,3 +46,25 @@ VH_ENTRY vh_lazy_glyph() {
   ASSERT(w.glyphs[other] == before_other, "the lookup changes no other cache entry");
   VH_END();
 }
+
+#ifdef VH_LAZY_BOXES
+// ---- C10 (eager vs lazy glyph loading, box clause): on a face with glyph boxes, a glyph loaded on demand gets its GlyphBox (slant bounds)
+// whether or not THAT glyph has sub-boxes - as the preloading path gives every glyph one.  read_box is stubbed (returns the box it was handed).
+extern "C" GlyphBox *vh_stub_read_box(const void *self, uint16 gid, GlyphBox *curr, const GlyphFace *face) asm("_ZNK9graphite210GlyphCache6Loader8read_boxEtPNS_8GlyphBoxERKNS_9GlyphFaceE");
+static int vh_subs[NG];
+GlyphBox *vh_stub_read_box(const void *, uint16, GlyphBox *curr, const GlyphFace *) { return curr; }
+VH_ENTRY vh_lazy_boxes() {
+  World w; vh_make_face(w);
+  GlyphCache *gc = w.gc;
+  for (unsigned i = 0; i < NG; ++i) { vh_ok[i] = true; vh_adv[i] = 1.f; }
+  gc->_glyph_loader = reinterpret_cast<const GlyphCache::Loader *>(vh_new<uint64_t>());
+  GlyphBox **boxes = vh_new<GlyphBox *>(NG); for (unsigned i = 0; i < NG; ++i) boxes[i] = 0;
+  gc->_boxes = boxes;
+  for (unsigned i = 1; i < NG; ++i) w.glyphs[i] = 0;          // only glyph 0 loaded so far
+  uint16_t g = nondet_u16(); ASSUME(g >= 1 && g < NG);
+  const GlyphFace *a = gc->glyph(g);
+  ASSERT(a != 0 && a == w.glyphs[g], "glyph loaded on demand");
+  ASSERT(gc->_boxes[g] != 0, "a face with glyph boxes gives every glyph it loads a box (slant bounds), sub-boxes or not");
+  VH_END();
+}
+#endif
